@@ -150,6 +150,7 @@ class Roll(HookHost):
         self._contour_line = None
 
     def reevaluate_cache(self):
+        self._contour_line = None  # memoised from the groove: must not feed the re-evaluation below
         super().reevaluate_cache()
         self._contour_line = None
 
